@@ -18,4 +18,4 @@ ASSUMPTIONS = [
 
 
 def run(ck):
-    mb_common.run_mb(ck, {"unique", "handover"})
+    mb_common.run_mb(ck, {"unique", "handover"}, box_clauses={"delivery"})
